@@ -33,7 +33,7 @@ GLUED_NAMES = ["a", "bc", "ab", "c", "b", "abc", "1", "11", "x", "x1"]  # names 
 def plan(tier, seed):
     q = tier == "quick"
     n = 16
-    specs = [{"kind": "mix", "i": i, "n": n, "maxleaves": 6 if q else 7, "sub4_stride": 1, "nrand": 250 if q else 600, "hist": 4, "nsuper": 30 if q else 100} for i in range(n)]
+    specs = [{"kind": "mix", "i": i, "n": n, "maxleaves": 6 if q else 7, "sub4_stride": 1, "nrand": 250 if q else 600, "hist": 4, "nsuper": 30 if q else 100, "nbigtriples": 3 if q else 60} for i in range(n)]
     return specs
 
 
@@ -148,6 +148,88 @@ def check_roundtrip(ctx, nested):
     ctx.sig(("rt", tuple(sorted(map(tuple, map(sorted, M.clades()))))), len(names) >= 3)
     if len(names) >= 4:
         ctx.sample(case)
+
+
+def check_big_triples(ctx, rng, n):
+    """Leaf sets far beyond enumeration (12-20 leaves): the triples of a hidden binary tree in the order the package's
+    own decomposition emits them, a few of them dropped.  Soundness of every returned tree is checked one by one (leaf set,
+    binary, displays every triple, all distinct) and the hidden tree - which displays every triple - must be among them;
+    the single-tree routine must return a displaying tree."""
+    import superrec2.utils.trees as UT
+
+    names = [f"a{i}" for i in range(n)]
+    hidden = RT.random_binary(rng, names) if rng.random() < 0.5 else RT.balanced(rng.sample(names, n))
+    M, nm = model_of(hidden)
+    try:
+        leaves, triples = UT.tree_to_triples(ete_of(hidden))
+    except Exception as exc:  # noqa: BLE001
+        ctx.viol("C20.roundtrip", {"kind": "bigtriples", "tree": RT.tolist(hidden)}, f"tree_to_triples raised {type(exc).__name__}: {exc}")
+        return
+    triples = [tuple(t) for t in triples]
+    for _ in range(rng.choice([0, 1, 1])):
+        if len(triples) > 3:
+            triples.pop(rng.randrange(len(triples)))
+    case = {"kind": "bigtriples", "leaves": list(leaves), "triples": [list(t) for t in triples], "hidden": RT.tolist(hidden)}
+    import signal
+
+    class _Budget(BaseException):
+        pass
+
+    def _alarm(signum, frame):
+        raise _Budget()
+
+    old = signal.signal(signal.SIGALRM, _alarm)
+    signal.setitimer(signal.ITIMER_REAL, 5)
+    try:
+        got_trees = UT.all_trees_from_triples(list(leaves), list(triples))
+        one = UT.tree_from_triples(list(leaves), list(triples))
+    except (_Budget, MemoryError):
+        ctx.count("skipped_budget")  # an under-determined set with a huge number of trees: not observed
+        return
+    except Exception as exc:  # noqa: BLE001
+        ctx.viol("C20.alltrees", case, f"raised {type(exc).__name__}: {exc}")
+        return
+    finally:
+        signal.setitimer(signal.ITIMER_REAL, 0)
+        signal.signal(signal.SIGALRM, old)
+    ctx.count("evaluations", 2)
+    ctx.count("mon.big_triple_sets")
+    if len(got_trees) > 4000:
+        ctx.count("skipped_large")
+        return
+    seen = set()
+    for t in got_trees:
+        R, rn = model_of(nested_of_ete(t))
+        if sorted(rn) != sorted(names) or not R.is_binary():
+            ctx.viol("C20.alltrees", case, "all_trees_from_triples returned a tree that is not binary or has another leaf set")
+            break
+        bad = next((tr for tr in triples if not displays(R, rn, tr)), None)
+        if bad is not None:
+            ctx.viol("C20.alltrees", case, f"all_trees_from_triples returned a tree that does not display the triple {bad} ({len(got_trees)} trees on {n} leaves)")
+            break
+        if R.clades() in seen:
+            ctx.viol("C20.alltrees", case, "a tree is returned more than once")
+            break
+        seen.add(R.clades())
+    else:
+        if M.clades() not in seen:
+            ctx.viol("C20.alltrees", case, f"the hidden tree, which displays every given triple, is missing from the {len(got_trees)} trees returned for {n} leaves")
+    if one is None:
+        ctx.viol("C20.onetree", case, "tree_from_triples returned None although the hidden tree displays every triple")
+    else:
+        R1, rn1 = model_of(nested_of_ete(one))
+        bad = next((tr for tr in triples if not displays(R1, rn1, tr)), None)
+        if bad is not None or sorted(rn1) != sorted(names):
+            ctx.viol("C20.onetree", case, f"tree_from_triples returned a tree that does not display {bad}")
+    ctx.sig(("bigtriples", n, len(triples), min(len(got_trees), 50)), True)
+
+
+def _leaves_of(x):
+    if isinstance(x, str):
+        yield x
+    else:
+        for c in x:
+            yield from _leaves_of(c)
 
 
 def check_triple_set(ctx, leaves, triples):
@@ -425,6 +507,8 @@ def run(ctx, spec):
         else:
             sub = rng.sample(all_triples(leaves), rng.randint(1, 6))
         check_triple_set(ctx, leaves, sorted(set(sub)))
+    for _ in range(spec.get("nbigtriples", 12)):
+        check_big_triples(ctx, rng, rng.choice([12, 14, 15, 16, 16, 17]))
     for _ in range(spec["nsuper"]):
         check_supertree(ctx, rng, rng.choice([4, 5, 5, 6]))
     pairs = list(itertools.combinations(range(5), 2))
@@ -458,6 +542,16 @@ def replay(ctx, case):
         check_roundtrip(ctx, case["tree"])
     elif case["kind"] == "triples":
         check_triple_set(ctx, case["leaves"], [tuple(t) for t in case["triples"]])
+    elif case["kind"] == "bigtriples":
+        import superrec2.utils.trees as UT
+
+        got = UT.all_trees_from_triples(list(case["leaves"]), [tuple(t) for t in case["triples"]])
+        for t in got:
+            R, rn = model_of(nested_of_ete(t))
+            bad = next((tr for tr in case["triples"] if not displays(R, rn, tuple(tr))), None)
+            if bad is not None or not R.is_binary() or sorted(rn) != sorted(case["leaves"]):
+                ctx.viol("C20.alltrees", case, f"a returned tree does not display {bad}")
+                break
     elif case["kind"] == "dsu":
         check_dsu(ctx, case["n"], [tuple(h) for h in case["history"]])
     else:
